@@ -2,6 +2,7 @@
 import json
 import os
 from lib import *
+import re
 import sem
 import common
 
@@ -195,16 +196,34 @@ def rule_store(F, R, rule="R14-store"):
     else:
         h = hs[0]
         fn = norm(h["path"])
-        sets = list(calls(h["body"], r"ExecutionContext::set_field_value(_from_name)?$"))
-        direct = [a for a in exprs(h["body"], ("Assign", "AssignOp")) if any(f.get("name") == "values" for f in exprs(a["l"], "Field"))]
-        direct += [c for c in exprs(h["body"], "MethodCall") if c["m"] in ("replace", "insert", "push", "swap") and
-                   any(f.get("name") == "values" for f in exprs(c["recv"], "Field"))]
+        # read with the private helpers of the file followed (the field branch may live in its own method)
+        Sv = sem.Sem(E, h)
+        vs = Sv.sites()
+        sets = [x.node for x in vs if x.node.get("k") in ("Call", "MethodCall") and
+                re.search(r"ExecutionContext::set_field_value(_from_name)?$", norm(x.node.get("callee", "")))]
+        direct = [x.node for x in vs if x.node.get("k") in ("Assign", "AssignOp") and any(f.get("name") == "values" for f in exprs(x.node["l"], "Field"))]
+        direct += [x.node for x in vs if x.node.get("k") == "MethodCall" and x.node["m"] in ("replace", "insert", "push", "swap") and
+                   any(f.get("name") == "values" for f in exprs(x.node["recv"], "Field"))]
         R.check(len(sets) >= 1 and not direct, rule, fn, "field values stored only through the type-checked setter",
                 "%d setter calls, %d direct writes to `values`" % (len(sets), len(direct)), h["span"])
-        # the setter's error is propagated
+        # the setter's error is propagated: `setter(..).map_err(..)?`, or a match whose every Err arm returns an error / panics
+        bodies = [h["body"]] + [E.hir(p_)["body"] for p_, _ in Sv.inlined if E.hir(p_) is not None]
         for c in sets:
-            par = [m for m in exprs(h["body"], "MethodCall") if m["m"] == "map_err" and deref(m["recv"]) is c]
-            R.check(len(par) == 1, rule, fn, "setter error becomes a deserialization error", where=c["sp"])
+            prop = False
+            for bd in bodies:
+                for m in exprs(bd, "MethodCall"):
+                    if m["m"] == "map_err" and deref(m["recv"]) is c:
+                        prop = prop or any(sem.is_try(t_) and any(y is m for y in walk(sem.try_inner(t_))) for t_ in exprs(bd, "Match"))
+                for t_ in exprs(bd, "Match"):
+                    if sem.is_try(t_) and sem.peel(sem.try_inner(t_)) is c:
+                        prop = True
+                    if not sem.is_try(t_) and deref(t_["scrut"]) is c:
+                        errs = [a_ for a_ in t_["arms"] if pat_variant(a_["pat"]) == "core::result::Result::Err" or a_["pat"].get("k") == "PWild"]
+                        prop = bool(errs) and all(bool(explicit_err_returns(a_["body"])) or sem.diverges(a_["body"]) or
+                                                  sem.ctor_head(tail(a_["body"])) == "Result::Err" or
+                                                  any(norm(c_.get("callee", "")).startswith("core::panicking") for c_ in exprs(a_["body"], "Call"))
+                                                  for a_ in errs)
+            R.check(prop, rule, fn, "setter error becomes a deserialization error", where=c["sp"])
     n = 0
     for rx, meth, what in ((r"ArrayVisitor as serde_core::de::Visitor>::visit_seq$", "push", "array element"),
                            (r"::MapVisitor as serde_core::de::Visitor>::visit_map$", "insert", "map value"),
